@@ -34,7 +34,7 @@ class Harness:
     fn: Callable[[World], None]
     weight: int = 1
     tiers: tuple[str, ...] = ("quick", "thorough")
-    wall_limit: float = 20.0  # per-run real-time watchdog (harness error when exceeded)
+    wall_limit: float = 120.0  # per-run real-time watchdog, a backstop only (harness error when exceeded); generous because the machine may be heavily loaded
 
 
 class RunTimeout(HarnessError):
